@@ -45,7 +45,8 @@ fn main() {
         i += 2;
     }
     // special sub-process modes do their own panic handling
-    let special = opts.extra.get("mode").map_or(false, |m| m != "child");
+    // C19 installs its own sentinel hook; other sub-process modes likewise
+    let special = opts.prop == "C19" || opts.extra.get("mode").map_or(false, |m| m != "child");
     if !special {
         install_quiet_hook();
     }
